@@ -25,7 +25,11 @@ TNext ==
          [] Ev.ev = "close"   -> ClientClose
          [] Ev.ev = "read"    -> IF Ev.n = 0 THEN ReadEof
                                  ELSE (ReadHeader \/ ReadBody) /\ Len(sock') = Len(sock) - Ev.n
-         [] Ev.ev = "out"     -> (Respond \/ SelectNotify) /\ out' = Append(out, Entry(Ev))
+         \* an Error PDU answers the query the specification says it answers; which code / version it carries is RFC 8210
+         \* detail beyond the statement and is not compared here (the replay reports a difference as a beyond-property note)
+         [] Ev.ev = "out"     -> /\ (Respond \/ SelectNotify) /\ Len(out') = Len(out) + 1
+                                 /\ LET w == out'[Len(out')]  g == Entry(Ev) IN
+                                      IF w[1] = "err" /\ g[1] = "err" THEN w[2] = g[2] ELSE w = g
          [] Ev.ev = "end"     -> (Respond /\ closed' /\ out' = out) \/ (closed /\ UNCHANGED vars)
          [] OTHER -> FALSE
 TraceSpec == TInit /\ [][TNext]_tvars
